@@ -2,6 +2,7 @@
 from mirlib import *
 from rules import tables, psc, c05, shared
 from rules.shared import deref
+from rules.psc import sym
 
 META = {
     'title': 'Builtins are total and behave as documented',
@@ -172,6 +173,8 @@ def run(ctx, rep):
     check_calls_are_calls(ctx, rep, 'R14.7')
     rep.rule('R14.8', 'print substitutes in one pass: text that an argument inserted is never searched for placeholders again')
     rep.rule('R14.9', 'print prints all of its format text: the walk over the pieces between the placeholders is not cut short by the number of arguments')
+    rep.rule('R14.11', 'int(text) and float(text) read their text the same way: both parse the text with surrounding blanks removed, or neither does (a number padded with blanks converts with both or with none)')
+    check_text_conversions_agree(ctx, rep, 'R14.11')
     rep.rule('R14.10', 'the text of a value depends on the value only: a list of arrays being printed (a guard against arrays that contain themselves) is scoped - each entry is removed when its array is done, so an array that occurs twice prints twice')
     check_print_guard_scoped(ctx, rep, 'R14.10')
     check_print_single_pass(ctx, rep, 'R14.8', 'R14.9')
@@ -328,3 +331,24 @@ def check_print_guard_scoped(ctx, rep, rule):
     if not n:
         rep.good(rule, 'object::Object', 'printing keeps no visit list', 'no routine reachable from Display for Object (%d functions) both tests and fills a collection' % len(seen_fns), 'src/object.rs', nontrivial=False)
     rep.count('print_visit_guards', n)
+
+
+def check_text_conversions_agree(ctx, rep, rule):
+    """the two text-to-number builtins are siblings: what each does to the text before `parse` (trim, trim_start, ...) is the same"""
+    F = ctx.facts()
+    seen = {}
+    for name in ('builtins::call_int', 'builtins::call_float'):
+        fn = F.fns.get(name)
+        if fn is None:
+            continue
+        prep = None
+        for b, t in fn.calls():
+            n = callee_name(t)
+            if n.endswith('::parse') and 'str' in n and t['args']:
+                a = str(sym(fn, t['args'][0]))
+                prep = tuple(sorted(x for x in ('::trim', '::trim_start', '::trim_end', '::to_lowercase', '::to_uppercase', '::replace', '::strip_prefix', '::trim_matches') if (x + "'") in a or (x + '"') in a))
+        seen[name] = prep
+    vals = [v for v in seen.values() if v is not None]
+    ok = len(vals) == 2 and vals[0] == vals[1]
+    rep.ob(ok, rule, 'builtins::call_int', 'text preparation agrees with float()',
+           'what happens to the text before it is parsed: %s' % {k.split('::')[-1]: (list(v) if v is not None else 'no parse call found') for k, v in seen.items()}, 'src/builtins.rs')
